@@ -41,7 +41,7 @@ impl HeaderFlags {
     }
 
     pub fn is_set(self, flags: u8) -> bool {
-        flags & self.into_raw() == 1
+        flags & self.into_raw() != 0
     }
 
     pub fn set(self, flags: &mut u8) {
